@@ -270,6 +270,25 @@ Proof.
   intros wscrut sty x cargs cont st s st' H. unfold wc_dtor in H. minv H. minv H.
   apply mlift_inv in E0. destruct E0 as [E0 ->]. apply expect_ty_inv in E0. eauto 8.
 Qed.
+Lemma guard_capture_inv : forall binders w ty cont st s st',
+  guard_capture false binders w ty cont st = Ok (s, st') ->
+  (captures binders cont = false /\ w cont st = Ok (s, st')) \/
+  (captures binders cont = true /\
+   exists ty0 a sta s0,
+     ty = Some ty0 /\ fresh_covar st = Ok (a, sta) /\
+     captures binders (CXVar CCns (new_id a) (compile_ty ty0)) = false /\
+     w (CXVar CCns (new_id a) (compile_ty ty0)) sta = Ok (s0, st') /\
+     s = CCut (CMu CPrd (new_id a) s0 (compile_ty ty0)) (compile_ty ty0) cont).
+Proof.
+  intros binders w ty cont st s st' H. unfold guard_capture in H.
+  destruct (captures binders cont) eqn:Ec; [right | left; auto]. split; [reflexivity|].
+  minv H. apply mlift_inv in E. destruct E as [E ->]. apply expect_ty_inv in E. minv H. minv H.
+  apply mret_inv in H. destruct H; subst.
+  destruct (captures binders (CXVar CCns (new_id x0) (compile_ty x))) eqn:Ec2; [discriminate E1|].
+  exists x, x0, st0, x1. repeat split; auto.
+Qed.
+Lemma guard_capture_legacy : forall binders w ty cont, guard_capture true binders w ty cont = w cont.
+Proof. reflexivity. Qed.
 Lemma wc_call_inv : forall f cargs ret cont st s st', wc_call f cargs ret cont st = Ok (s, st') ->
   exists args ret0, cargs st = Ok (args, st') /\ ret = Some ret0 /\
                     s = CCall (new_id f) (args ++ [CConsumer cont]) (compile_ty ret0).
